@@ -161,6 +161,10 @@ def culprit_fields(q):
   else:
     ca = str(a)
   out = {"quantizer": qname(q), "culprit_alpha": ca}
+  if qname(q) in ("quantized_po2", "quantized_relu_po2"):
+    # the quadratic mode maps |x| < epsilon to an exponent outside its lattice
+    out["quadratic_approximation"] = bool(getattr(q, "quadratic_approximation", False))
+    out["log2_rounding"] = getattr(q, "log2_rounding", None)
   if qname(q) == "binary":
     # {0,1} codes: the stored code 0 is re-quantized as "non-negative" -> 1
     out["use_01"] = bool(getattr(q, "use_01", False))
